@@ -18,6 +18,7 @@ from models import Models, some, none, ok, err, deref, sv, TABLE
 from mir import split_top, match_close, find_top
 
 MAX_ABSTRACT_CALLS = 14
+MAX_PRIMITIVE_EVENTS = 60
 LINEFN = z3.Function('L', z3.IntSort(), z3.IntSort())
 TOTAL = z3.Int('LEN')
 
@@ -116,7 +117,7 @@ def prod_name(path):
 
 def effect_free(it, f):
     name = prod_name(f.path)
-    if name == it.env.get('self_name'):
+    if name == it.env.get('self_name') or name in it.env.get('span_returning', ()):
         return False
     summ = it.env.get('summaries', {}).get(name)
     if summ is None:
@@ -150,6 +151,8 @@ def call_production(it, path, sp, dest_ty):
             apply_effect(it, summ.get('ok', (0, 0)), name)
         ty = result_type(dest_ty) or name
         g.log.append(('ok', name))
+        if norm_type(ty) == 'LocatedSpan' or name in it.env.get('span_returning', ()):
+            return ok(Tup([span(q), span(p, length=q - p)]))     # productions that return the matched span itself
         return ok(Tup([span(q), anode(norm_type(ty), p, q)]))
     if summ:
         apply_effect(it, summ.get('err', (0, 0)), name)
@@ -182,6 +185,11 @@ def apply_prim(it, P_, sp, dest_ty):
     g = gs(it)
     k = P_.kind
     p = sp.data['off']
+    g.prims = getattr(g, 'prims', 0) + 1
+    if g.prims > MAX_PRIMITIVE_EVENTS and k in ('terminal', 'tag', 'tag_no_case', 'is_a', 'is_not', 'one_of', 'none_of', 'char', 'anychar'):
+        # bound on the number of token-level events along one path (loops over separators etc.)
+        g.log.append(('event-bound', k))
+        return nom_error(it, sp)
     if k == 'terminal':
         okb = g.fresh('t_' + P_.args[0], 'Bool')
         if it.decide(okb, 'terminal'):
@@ -434,7 +442,8 @@ def install(mdl, production_names=None):
         v = ctor0(it, ci, a, d)
         if it.frames:
             # the frame of the CALLER (dispatch runs inside the caller's activation)
-            it.frames[-1].setdefault('nom:' + ci.name, []).append(v)
+            from interp import fifo_put
+            fifo_put(it.frames[-1], 'nom:' + ci.name, v)
         return v
 
     def ctor0(it, ci, a, d):
@@ -528,10 +537,13 @@ def install(mdl, production_names=None):
     # thread-locals
     def local_with(it, ci, a, d):
         key = deref(a[0])
-        cell = it.env['tls'].get(key.data)
+        kname = key.data if type(key) is Opaque else str(getattr(key, 'path', key)).split('::')[-1]
+        if kname == 'RECURSIVE_STORAGE' or 'RECURSIVE_STORAGE' in str(getattr(key, 'path', '')):
+            return 0      # index of this production in nom_recursive's table (its value is immaterial)
+        cell = it.env['tls'].get(kname)
         if cell is None:
             raise Inconclusive('unknown thread-local %r' % (key.data,))
-        it.env.setdefault('tls_touched', set()).add(key.data)
+        it.env.setdefault('tls_touched', set()).add(kname)
         return it.call_value(a[1], [Ref([cell], 0)])
     ov(r'^LocalKey::<.*>::with::<', local_with)
 
@@ -543,6 +555,18 @@ def install(mdl, production_names=None):
     def cellref_deref(it, ci, a, d):
         return deref(a[0]).fields[0]
     ov(r'^<(std::cell::|core::cell::)?Ref(Mut)?<.*> as Deref(Mut)?>::deref(_mut)?$', cellref_deref)
+
+    # #[recursive_parser] prologue: re-entry at the same position fails, otherwise the body runs
+    def rec_check(it, ci, a, d):
+        return gs(it).fresh('reentered', 'Bool')
+    ov(r'^RecursiveInfo::check_flag$', rec_check)
+    ov(r'^RecursiveInfo::(set_ptr|clear_flags|set_flag)$', lambda it, ci, a, d: UNIT)
+    ov(r'^RecursiveInfo::get_ptr$', lambda it, ci, a, d: Opaque('Ptr', 'stored'))
+    ov(r'as AsBytes>::as_bytes$', lambda it, ci, a, d: Opaque('Bytes', a[0]))
+    ov(r'<impl \[u8\]>::as_ptr$|slice::.*::as_ptr$', lambda it, ci, a, d: Opaque('Ptr', 'current'))
+
+    ov(r'HasRecursiveInfo>::get_recursive_info$', lambda it, ci, a, d: Opaque('RecursiveInfo', {}))
+    ov(r'HasRecursiveInfo>::set_recursive_info$', lambda it, ci, a, d: a[0])
 
     def packrat_clear(it, ci, a, d):
         deref(a[0]).data['entries'] = 0
@@ -561,12 +585,10 @@ def const_hook_tls(it, name):
     if m:
         # a nom parser whose captures are zero-sized, printed as a constant: the parser object of that kind
         # created last in this activation (FIFO), see Interp.const_path
+        from interp import fifo_take
         fr = it.frames[-1] if it.frames else None
-        q = fr.get('nom:' + m.group(1)) if fr is not None else None
-        if q:
-            v = q[0]
-            if len(q) > 1:
-                q.pop(0)
+        v = fifo_take(fr, 'nom:' + m.group(1)) if fr is not None else None
+        if v is not None:
             return NoCache(v)
         raise Inconclusive('zero-sized nom parser constant without a creation site: %s' % name[:100])
     return None
@@ -611,8 +633,8 @@ def intervals(v, out):
     elif t is Opaque:
         if v.kind == 'ANode':
             out.append((v.data['a'], v.data['b'], 'node', None))
-        elif v.kind in ('LocatedSpan', 'AbsChar'):
-            pass     # a raw span / char kept in a node would not be a leaf: types forbid it
+        elif v.kind == 'LocatedSpan' and v.data.get('len') is not None:
+            out.append((v.data['off'], v.data['off'] + v.data['len'], 'span', None))     # a production that returns the matched span
     elif t is Ref:
         intervals(v.get(), out)
 
